@@ -17,7 +17,7 @@ import vcommon as v
 import crashengine as ce
 
 PROP = "C09"
-INV = ["CrashOpens", "CrashWindow", "RealOpens", "RealWindow", "ReadsServe", "HealWorks"]
+INV = ["CrashOpens", "CrashWindow", "RealOpens", "RealWindow", "ReadsServe", "HealWorks", "OutageHeals"]
 
 
 def run(tier, seed):
